@@ -335,7 +335,9 @@ class MindsDBLexer(Lexer):
     def INTEGER(self, t):
         return t
 
-    @_(r"'(?:\\.|[^'])*(?:''(?:\\.|[^'])*)*'")
+    # (same matches as '(?:\\.|[^'])*(?:''(?:\\.|[^'])*)*' , written so that a backslash can be read in one way only
+    #  unless a quote follows: the ambiguous form needed exponential time on an unterminated literal with many backslashes)
+    @_(r"'(?:[^'\\]|\\[^'\n]|\\'|\\(?=['\n]))*(?:''(?:[^'\\]|\\[^'\n]|\\'|\\(?=['\n]))*)*'")
     def QUOTE_STRING(self, t):
         # un-escape between the delimiters only: a quote next to a delimiter is part of the value
         #   (in one pass: the result of one replacement must not take part in the next one)
@@ -346,7 +348,7 @@ class MindsDBLexer(Lexer):
         t.value = decoded(t.value[0] + body + t.value[-1], t.value)
         return t
 
-    @_(r'"(?:\\.|[^"])*"')
+    @_(r'"(?:[^"\\]|\\[^"\n]|\\"|\\(?=["\n]))*"')
     def DQUOTE_STRING(self, t):
         body = re.sub(r"""\\(.)""", lambda m: m.group(1) if m.group(1) in '\'"' else m.group(0), t.value[1:-1], flags=re.S)
         t.value = decoded(t.value[0] + body + t.value[-1], t.value)
